@@ -15,7 +15,8 @@ fn budget(t: Tier) -> u64 {
 }
 
 pub fn random_forgery(rng: &mut Rng, n_prev: u32) -> Forgery {
-    match rng.below(30) {
+    match rng.below(31) {
+        30 => Forgery::RaggedPath(*rng.pick(&[4u32, 8, 36, 60, 68, 100, 132])),
         27 => Forgery::LooseRoot,
         28 | 29 => Forgery::ShadowTag { tag: rng.pick(&["ROOT", "MIDP", "RADI", "PUBK", "MINT", "MAXT"]).to_string(), seed: rng.next_u64() },
         23 => Forgery::ResignedRootPrefixKept(*rng.pick(&[1u32, 4, 8, 16, 31, 32, 63])),
